@@ -99,9 +99,9 @@ _E1 = {
 }
 _E1_BUDGET = {  # (batches, examples per batch) for quick / thorough
     "C01": ((64, 400), (640, 800)),
-    "C02": ((64, 70), (640, 200)),
-    "C03": ((64, 150), (640, 300)),
-    "C04": ((64, 100), (640, 200)),
+    "C02": ((64, 300), (640, 700)),
+    "C03": ((64, 220), (640, 500)),
+    "C04": ((64, 250), (640, 500)),
     "C05": ((64, 300), (640, 500)),
     "C08": ((64, 100), (640, 200)),
     "C09": ((64, 150), (640, 300)),
